@@ -29,9 +29,14 @@ class CK:
     fail_at = None
     probes = None
     target = None
+    live = 0          # instances alive (leak detection)
 
     def __init__(self, n):
         self.n = n
+        CK.live += 1
+
+    def __del__(self):
+        CK.live -= 1
 
     def _hit(self, other):
         CK.count += 1
@@ -172,6 +177,10 @@ def run(ctx):
             before = contents(base, setlike)
             sh = shape(base, setlike) if kind in ("BTree", "TreeSet") else ("node", [(0, ("leaf", [x if setlike else x[0] for x in before]))])
             present = [x if setlike else x[0] for x in before]
+            import gc
+            t = key = nk = None
+            gc.collect()
+            live0 = CK.live       # the keys of 'base' only
             cand_keys = sorted(set(rng.sample(present, min(3, len(present))) + [rng.randrange(-1, 2 * u + 1) for _ in range(2)]))
             for k in cand_keys:
                 ops = ["get", "set", "del", "range", "minkey"]
@@ -204,6 +213,7 @@ def run(ctx):
                         terms.append("CT %s %s %s [%s]" % (shape_term(sh), "true" if op == "del" else "false", Z(k), "; ".join(Z(p) for p in probes)))
                     # ---- fail every comparison in turn
                     for n in range(1, total + 1):
+                        t = key = nk = None
                         t = build(cls, setlike, keys_in, keys_del, val)
                         key = CK(k)
                         CK.count, CK.fail_at, CK.probes, CK.target = 0, n, None, None
@@ -242,6 +252,14 @@ def run(ctx):
                                 bad = "unsound:" + str(e)[:50]
                             except Exception as e:  # noqa
                                 bad = "later-ops-raise:" + type(e).__name__
+                        if bad is None:
+                            # no stored key is leaked: dropping the container frees every key object
+                            t = key = nk = None
+                            if CK.live != live0:
+                                gc.collect()
+                            if CK.live != live0:
+                                bad = "leak:%d key object(s) still alive after the container was dropped" % (CK.live - live0)
+                                live0 = CK.live
                         if bad:
                             ctx.oracle_failure("%s:%s:%s:%s" % (impl, kind, op, bad.split(":")[0] + (":" + bad.split(":")[1] if bad.startswith("unsound") else "")),
                                                "%s%s/%s sizes=(%d,%d) keys=%r deleted=%r: %s(%d) with comparison #%d of %d failing: %s" % (
